@@ -451,6 +451,9 @@ func derivesAny(v ssa.Value, p core.VPred) bool {
 			}
 		}
 		switch y := x.(type) {
+		case *ssa.Field:
+			// a field of a struct value (a small result struct): derives from the struct
+			return walk(y.X, d+1)
 		case *ssa.Call:
 			for _, a := range core.CallArgs(&y.Call) {
 				if walk(a, d+1) {
